@@ -8,7 +8,8 @@ in one of four homes (function, bridge, operation, derived attribute) of a synth
   D      (i)  text2 parses;  (ii) canon(tree1) == canon(tree2), compared strictly (every field, every length);
          (iii) text3 == text2.   canon is implemented here in Python, independently of the Lean model.
   K      tokens of text2 (real PLY lexer) == Lean genTokens(canon tree1);
-         canon(tree2) == Lean parseGen(those tokens);  Python canon(tree1) == Lean canon(tree1).
+         canon(tree2) == Lean parseGen(those tokens);  Python canon(tree1) == Lean canon(tree1);
+         Lean `supported` holds of the normal form (the case lies in the theorems' domain).
 """
 import hashlib
 import random
@@ -128,7 +129,7 @@ def run_impl(case):
     nstm = G.count_statements(case['prog'])
     stats = {'home_' + case['home']: 1, 'statements': nstm, 'tokens': len(toks)}
     _kind_stats(case['prog'], stats)
-    return {'obs': [toks, c2, c1], 'd_fail': fails[:3], 'nontrivial': nstm >= 2 and len(toks) >= 12,
+    return {'obs': [toks, c2, c1, Sym('T')], 'd_fail': fails[:3], 'nontrivial': nstm >= 2 and len(toks) >= 12,
             'key': case['home'] + ':' + hashlib.sha1(text1.encode()).hexdigest()[:16], 'stats': stats}
 
 
